@@ -36,6 +36,11 @@ type Source struct {
 	Ended    bool
 }
 
+// NewSource: a stream that replays prefix, then answers base(n) up to depth draws, then is exhausted.
+func NewSource(prefix []Draw, depth int, base func(n int) uint64) *Source {
+	return &Source{prefix: prefix, depth: depth, base: base}
+}
+
 func (s *Source) DrawBits(n int) uint64 {
 	i := len(s.Trace)
 	var d Draw
